@@ -16,7 +16,7 @@
   the elastic constants allowed by the stated hypotheses.
 -/
 import TfelVerif.C21.Lemmas
-import TfelVerif.C21.Gen
+import TfelVerif.C21.GenModuli
 
 namespace TfelVerif.C21.Props
 open TfelVerif TfelVerif.C21
